@@ -72,3 +72,80 @@ func H16b() {
 	}
 	h02Check(s, 2)
 }
+
+// h16Find returns the location of the first statement with the given keyword and argument.
+func h16Find(ss []*Statement, kw, arg string) string {
+	for _, s := range ss {
+		if s.Keyword == kw && s.Argument == arg {
+			return s.Location()
+		}
+		if l := h16Find(s.statements, kw, arg); l != "" {
+			return l
+		}
+	}
+	return ""
+}
+
+// H16c: one semantic fault in a module spread over several lines after a column-shifting
+// prelude: every file:line:col that starts an error of building or resolving the module is the
+// start of the statement the property names.
+func H16c() {
+	pre := h02Pick("", "\t", "/* é日 */ ", "  // c\n\t ", "\n\n   ")
+	type fault struct{ text, kw, arg string }
+	faults := []fault{
+		{"bogus-sub q1;", "bogus-sub", "q1"},                                       // unknown substatement: itself
+		{"leaf q2 { description d; }", "leaf", "q2"},                                // lacks mandatory type: the leaf
+		{"leaf q3 { type nosuch3; }", "type", "nosuch3"},                            // unknown type
+		{"leaf q4 { type m:nosuch4; }", "type", "m:nosuch4"},                        // unknown own-prefixed type
+		{"leaf q5 { type x:nosuch5; }", "type", "x:nosuch5"},                        // unknown type in an imported module
+		{"leaf q6 { type zz:t6; }", "type", "zz:t6"},                                // unknown prefix
+		{"container q7 { uses nosuch7; }", "uses", "nosuch7"},                       // unknown grouping
+		{"leaf q8 { type int8 { range \"9..1\"; } }", "range", "9..1"},              // bad range
+		{"leaf q9 { type string { length \"5..2\"; } }", "length", "5..2"},          // bad length
+		{"leaf q10 { type enumeration { enum e1; enum e2 { value 99999999999; } } }", "enum", "e2"}, // bad enum value
+		{"leaf q11 { type int8 { range \"1..300\"; } }", "range", "1..300"},         // range wider than the parent
+		{"typedef q12 { type string; }\n typedef q12b { type q12 { length \"a..b\"; } }", "length", "a..b"}, // malformed length in a typedef
+	}
+	f := faults[symChoice(len(faults))]
+	where := symChoice(3) // at module top, inside a container, inside a grouping that is used
+	body := f.text
+	switch where {
+	case 1:
+		body = "container wrap {\n\t\t" + f.text + "\n\t}"
+	case 2:
+		body = "grouping wrapg {\n  " + f.text + "\n }\n container user { uses wrapg; }"
+	}
+	text := pre + "module m {\n  namespace \"urn:m\";\n\tprefix m;\n  import x { prefix x; }\n  " + body + "\n  leaf fine { type string; }\n}\n"
+	xmod := `module x { namespace "urn:x"; prefix x; typedef known { type int8; } }`
+	note(text)
+	ss, perr := Parse(text, "f.yang")
+	check(perr == nil, "the text is well-formed")
+	want := h16Find(ss, f.kw, f.arg)
+	check(want != "", "harness: faulty statement located")
+	hNoFiles()
+	ms := NewModules()
+	check(ms.Parse(xmod, "x.yang") == nil, "imported module loads")
+	var msgs []string
+	if err := ms.Parse(text, "f.yang"); err != nil {
+		msgs = append(msgs, err.Error())
+	} else {
+		for _, e := range ms.Process() {
+			msgs = append(msgs, e.Error())
+		}
+	}
+	check(len(msgs) > 0, "the fault is reported")
+	reach("reported")
+	for _, m := range msgs {
+		// leading file:line:col of the message
+		if len(m) > 7 && m[:7] == "f.yang:" {
+			i, colons := 7, 0
+			for i < len(m) && colons < 2 {
+				if m[i] == ':' {
+					colons++
+				}
+				i++
+			}
+			check(m[:i-1] == want, "a position in an error of building or resolving a module is the start of the statement the property names")
+		}
+	}
+}
